@@ -372,3 +372,33 @@ func WithValidity(id Identity, kind int) (Identity, error) {
 	}
 	return Identity{Key: id.Key, Cert: c}, nil
 }
+
+// WithBigExtension returns an identity on the same key with the same names and serial whose certificate carries a
+// non-critical private extension of n bytes (certificates with embedded logos, SCT lists or vendor blobs get large;
+// from about 64 KiB on, the DER lengths of everything that contains the certificate need three length octets).
+func WithBigExtension(id Identity, n int) (Identity, error) {
+	if id.Key < 0 {
+		return id, fmt.Errorf("no private key")
+	}
+	now := time.Now().UTC().Truncate(time.Hour)
+	val := make([]byte, n)
+	for i := range val {
+		val[i] = byte(i*7 + i>>8)
+	}
+	tpl := &x509.Certificate{
+		SerialNumber:       id.Cert.SerialNumber,
+		Subject:            id.Cert.Subject,
+		RawSubject:         id.Cert.RawSubject,
+		NotBefore:          now.Add(-48 * time.Hour),
+		NotAfter:           now.Add(10 * 365 * 24 * time.Hour),
+		KeyUsage:           x509.KeyUsageDigitalSignature,
+		SignatureAlgorithm: x509.SHA256WithRSA,
+		ExtraExtensions:    []pkix.Extension{{Id: asn1.ObjectIdentifier{1, 3, 6, 1, 4, 1, 55555, 1, 1}, Value: val}},
+	}
+	k := Keys()[id.Key]
+	c, err := finishCert(tpl, &k.PublicKey, k, &issuer{Key: id.Key, Name: id.Cert.Issuer, RawSubject: id.Cert.RawIssuer})
+	if err != nil {
+		return id, err
+	}
+	return Identity{Key: id.Key, Cert: c}, nil
+}
